@@ -331,6 +331,9 @@ def iterative_rejection_helper(
 
     if max_prior_samples is None:
         max_prior_samples = n_total_samples
+    else:
+        # the library itself limits how many prior samples can be used
+        max_prior_samples = min(max_prior_samples, n_total_samples)
 
     # The "magic numbers" below control how fast the iterative batches grow
     # in size, and the maximum number of iterations
